@@ -45,11 +45,14 @@ Idle == [s |-> "idle", id |-> 0]
 Expected(b) ==
     CASE b = "equal" -> "Equal" [] b = "different" -> "Different" [] b = "bare" -> "Equal"
       [] b \in {"playerRaises", "extractorRaises", "comparatorRaises"} -> "Failure"
+      \* the worker answers, but the parent cannot rebuild the answer it takes from the queue (results.get raises):
+      \* a failure of that recording only; the worker is alive and idle and keeps its age
+      [] b = "unreadable" -> "Failure"
       [] b = "exits" -> "FailureDied" [] b \in {"hangs", "late"} -> "FailureTimeout"
 
 \* what a worker that completes recording k puts on the result queue
 ResultOf(k) == [id |-> k, verdict |-> Expected(beh[k]),
-                attached |-> IF beh[k] = "playerRaises" THEN 0 ELSE k]
+                attached |-> IF beh[k] \in {"playerRaises", "unreadable"} THEN 0 ELSE k]
 
 Q == IF FreshQueues THEN gen ELSE 1          \* index of the queue pair the parent currently uses
 QW(g) == IF FreshQueues THEN g ELSE 1        \* ... and the pair worker g was created with
